@@ -49,8 +49,12 @@ class Gen(object):
         if attr:
             if k < 0.7:
                 return r.choice(self.attrs)
-            if k < 0.9:
+            if k < 0.87:
                 return '*'
+            if k < 0.94:
+                # node type tests on the attribute axis: node() is every attribute (no namespace declaration), the others select nothing
+                self.f('attribute-axis-node-type-test')
+                return r.choice(['node()', 'node()', 'node()', 'text()', 'comment()', 'processing-instruction()'])
             return r.choice(['p:*', 'q:*'])
         if k < 0.55:
             return r.choice(self.names + ['a', 'b', 'c', 'doc'])
